@@ -159,7 +159,7 @@ pub fn generate(g: &mut G, index: u64) -> Scenario {
             ops.push(Op::Sleep(period * g.range(3, 5) + period / 2));
             ops.push(Op::Call { h: 0, id: g.id(), work: vec![] });
         }
-        let shapes: Vec<u32> = if owning { vec![0, 1, 2, 3, 4, 5, 6, 8, 9, 10, 11] } else if restartable { vec![0, 5, 6, 7] } else { vec![0, 5, 7] };
+        let shapes: Vec<u32> = if owning { vec![0, 1, 2, 3, 4, 5, 6, 8, 9, 10, 11, 12] } else if restartable { vec![0, 5, 6, 7] } else { vec![0, 5, 7] };
         match g.pick(&shapes) {
             0 => {
                 ops.push(Op::Stop { h: 0 });
@@ -201,6 +201,18 @@ pub fn generate(g: &mut G, index: u64) -> Scenario {
                 ops.push(Op::Sleep(3));
                 ops.push(Op::Upgrade { h: 1, to: 2 });
                 ops.push(Op::QueryStopped { h: 1 });
+            }
+            12 => {
+                // two joins pending at the same time in different tasks both resolve
+                // (the first one is polled by the client before it moves to its own task, so
+                // that who gets the value does not depend on the schedule)
+                ops.push(Op::JoinStart { h: 0 });
+                ops.push(Op::JoinStart { h: 0 });
+                ops.push(Op::JoinPoll);
+                ops.push(Op::JoinSpawn);
+                ops.push(Op::Stop { h: 0 });
+                ops.push(Op::JoinFinish);
+                ops.push(Op::JoinCollect);
             }
             10 => {
                 // a join future polled once and kept does not block a later join
